@@ -1,3 +1,5 @@
--- This module serves as the root of the `YawVerif` library.
--- Import modules here that should be built as part of the library.
-import YawVerif.Basic
+-- Root of the `YawVerif` library: everything `lake build YawVerif` (setup) must compile.
+import YawVerif.Model.Proto
+import YawVerif.Drv.Common
+import YawVerif.Props.C03
+import YawVerif.Props.C04
